@@ -312,6 +312,10 @@ def gen_program(rng, focus):
     cfg['term'] = gen_term(rng, cfg['solver'])
     ops = []
     n = rng.randint(3, 10)
+    narrow = rng.random() < 0.25          # programs with narrow strict ranges (and therefore without constraint ops, which assume wide boxes)
+    cfg['narrow_ranges'] = narrow
+    if narrow and rng.random() < 0.6:
+        ops.append(['ranges', [math.floor(v) - 1.0 for v in cfg['x0']], [math.ceil(v) + 1.0 for v in cfg['x0']]])
     def lim():
         return [rng.choice([0, 1, 2, 3, 5, 8, None]), rng.choice([0, 1, 10, 30, 80, None]), rng.random() < 0.4]
     if focus == 'c05' and rng.random() < 0.5:
@@ -325,6 +329,8 @@ def gen_program(rng, focus):
             ops.append(['solve', G, E, new])
         elif r < 0.58: ops.append(['limits'] + lim())
         elif r < 0.64: ops.append(['penalty', K.gen_penalty(rng, dim) if rng.random() < 0.8 else None])
+        elif r < 0.70 and narrow:
+            ops.append(['penalty', K.gen_penalty(rng, dim) if rng.random() < 0.8 else None])
         elif r < 0.70:
             # constraints and ranges are generated compatible with each other: boxes have integer edges beyond [-6, 6],
             # constraint targets live in [-2, 2] (pin/clamp) or are grid/integer/tie projections that keep the box
@@ -335,8 +341,11 @@ def gen_program(rng, focus):
                     if c[0] in ('pin', 'clamp', 'grid', 'ints', 'tie'): break
                 else: c = ['pin', 0, 1.0]
             ops.append(['constraints', c])
-        elif r < 0.75:
-            if rng.random() < 0.8:
+        elif r < 0.75 or (narrow and r < 0.8):
+            if narrow and rng.random() < 0.8:
+                # a box hugging the start point: many proposals fall outside and are answered without calling the cost
+                ops.append(['ranges', [math.floor(v) - rng.choice([0.0, 1.0]) for v in cfg['x0']], [math.ceil(v) + rng.choice([0.0, 1.0]) for v in cfg['x0']]])
+            elif rng.random() < 0.8:
                 ops.append(['ranges', [float(-rng.randint(6, 9)) for _ in range(dim)], [float(rng.randint(6, 9)) for _ in range(dim)]])
             else: ops.append(['ranges', False, False])
         elif r < 0.81: ops.append(['termination', gen_term(rng, cfg['solver'])])
